@@ -20,10 +20,12 @@ const (
 	BehGoexit
 	BehCancelOK  // body calls cancel() and returns nil
 	BehCancelErr // body calls cancel() and returns its error
+	BehCancelGoexit   // body calls cancel() and then kills its goroutine
+	BehWaitDeadline   // body blocks until the (deadline) context is done, then returns nil
 )
 
 func (b Beh) String() string {
-	return [...]string{"ok", "err", "goexit", "cancel-ok", "cancel-err"}[b]
+	return [...]string{"ok", "err", "goexit", "cancel-ok", "cancel-err", "cancel-goexit", "wait-deadline"}[b]
 }
 
 const (
@@ -52,6 +54,7 @@ const (
 	CancelHelperOnStart // a helper goroutine cancels once job CancelArg has started
 	CancelAfterWait     // a helper goroutine cancels once Wait has been called
 	CancelCallerAfter   // the caller cancels after enqueuing job CancelArg
+	CancelDeadlinePast  // the context carries a deadline that has already passed
 )
 
 type Scenario struct {
@@ -70,11 +73,16 @@ type Scenario struct {
 	// the census has been taken (GateOpen = "census"), or when Wait has
 	// returned (GateOpen = "return").
 	GateOpen string `json:"gate_open,omitempty"`
+	// DeadlineUS > 0: the jobs' context expires this many microseconds after the
+	// scenario starts (context.WithTimeout), instead of being cancelled by hand.
+	DeadlineUS int `json:"deadline_us,omitempty"`
+	// Variant of the barrier family (how workers were stressed before the barrier).
+	Variant int `json:"variant,omitempty"`
 }
 
 func (s *Scenario) hasGoexit() bool {
 	for _, j := range s.Jobs {
-		if j.Beh == BehGoexit {
+		if j.Beh == BehGoexit || j.Beh == BehCancelGoexit {
 			return true
 		}
 	}
@@ -82,11 +90,11 @@ func (s *Scenario) hasGoexit() bool {
 }
 
 func (s *Scenario) hasCancel() bool {
-	if s.CancelKind != CancelNever {
+	if s.CancelKind != CancelNever || s.DeadlineUS > 0 {
 		return true
 	}
 	for _, j := range s.Jobs {
-		if j.Beh == BehCancelOK || j.Beh == BehCancelErr {
+		if j.Beh == BehCancelOK || j.Beh == BehCancelErr || j.Beh == BehCancelGoexit || j.Beh == BehWaitDeadline {
 			return true
 		}
 	}
@@ -285,10 +293,29 @@ func ensureFailure(sc *Scenario, r *vc.Rand) {
 }
 
 func ensureCancel(sc *Scenario, r *vc.Rand) {
+	n := len(sc.Jobs)
+	if r.Chance(1, 5) {
+		// cancellation by deadline instead of cancel()
+		sc.CancelKind = CancelNever
+		for i := range sc.Jobs {
+			if b := sc.Jobs[i].Beh; b == BehCancelOK || b == BehCancelErr {
+				sc.Jobs[i].Beh = BehOK
+			}
+		}
+		if r.Chance(1, 2) {
+			sc.CancelKind = CancelDeadlinePast
+		} else {
+			sc.DeadlineUS = 100 + r.Intn(1500)
+			k := r.Intn(n)
+			if !sc.Jobs[k].OtherCtx {
+				sc.Jobs[k].Beh = BehWaitDeadline
+			}
+		}
+		return
+	}
 	if sc.hasCancel() {
 		return
 	}
-	n := len(sc.Jobs)
 	switch r.Intn(5) {
 	case 0:
 		sc.CancelKind = CancelBeforeFirst
@@ -356,6 +383,7 @@ func genBarrier(r *vc.Rand, index int) *Scenario {
 	sc.COE = true
 	sc.PerturbSeed = r.Uint64()
 	sc.Profile = r.Intn(numProfiles)
+	sc.Variant = r.Intn(4)
 	return sc // jobs are built at run time (N may be the default)
 }
 
